@@ -40,6 +40,8 @@ def inner_spec(kind, ts=1):
           'proc'  - one probe process (accumulates v, collects tokens)
           'full'  - process + flow steps s1 <- s2 + legacy deriver d0
           'nested' - the same with the flow steps in a sub-compartment
+          'dproc' - process + a legacy deriver listed under PROCESSES (a
+                    Process whose is_step() is true), no other step
     """
     if kind == 'vars':
         return {}, {}, {}, {}
@@ -51,6 +53,14 @@ def inner_spec(kind, ts=1):
     processes = {'proc': proc}
     topology = {'proc': {'in': ()}}
     steps, flow = {}, {}
+    if kind == 'dproc':
+        processes['d0'] = {
+            'cls': 'D', 'pid': 'd0',
+            'schema': {'in': {'v': dict(VAR),
+                              'o_d0': {'_default': -1, '_updater': 'set',
+                                       '_emit': True}}},
+            'update': {'in': {'o_d0': {'$state': ('in', 'v')}}}}
+        topology['d0'] = {'in': ()}
     if kind in ('full', 'nested'):
         # s2 depends on s1 but is LISTED FIRST (dict order differs from the
         # dependency order) and reads what s1 wrote in this phase
@@ -152,6 +162,11 @@ def op_update(op, kind='vars', ts=1):
     if name == 'clr':
         _, c, k = op
         return {c: {k: {'n': None}}}
+    if name == 'delsub':
+        # delete the last flow step INSIDE the sub-compartment of one
+        # compartment
+        _, c, k = op
+        return {c: {k: {'sub': {'_delete': ['s2']}}}}
     if name == 'regen':
         # first half (first operator): delete; the second operator
         # generates the same key in the same tick (op2_update)
@@ -250,6 +265,9 @@ class Model:
             return op[2] not in self.t[op[1]]
         if name in ('del', 'delpath'):
             return op[2] in self.t[op[1]]
+        if name == 'delsub':
+            return op[2] in self.t[op[1]] and \
+                self.t[op[1]][op[2]]['inner'] == 'nested'
         if name == 'clr':
             return op[2] in self.t[op[1]] and \
                 self.t[op[1]][op[2]]['n'] is not None
@@ -272,10 +290,15 @@ class Model:
             # the engine's fixed order (adds, moves, generates, divide,
             # deletes last)
             a, b = op[1], op[2]
+            if a[0] in ('mov', 'movupd') and b[0] == 'gen' and \
+                    a[1:3] == b[1:3]:
+                # move a compartment away and generate its key anew in
+                # the same update (moves are carried out first)
+                return self.enabled(a)
             if not (self.enabled(a) and self.enabled(b)):
                 return False
-            if a[0] in ('clr', 'addleaf', 'regen') or b[0] in (
-                    'clr', 'addleaf', 'regen'):
+            if a[0] in ('clr', 'addleaf', 'regen', 'delsub') or b[0] in (
+                    'clr', 'addleaf', 'regen', 'delsub'):
                 return False
             ka, kb = a[2], b[2]
             if ka[0] == kb[0]:
@@ -305,6 +328,8 @@ class Model:
                                     'born': self.now, 'n': 'home', 'g': 0}
         elif name == 'clr':
             self.t[op[1]][op[2]]['n'] = None
+        elif name == 'delsub':
+            self.t[op[1]][op[2]]['inner'] = 'nos2'
         elif name == 'regen':
             self.t[op[1]][op[2]] = {
                 'v': 7, 'w': 1, 'cell': object(), 'ts': 1,
@@ -357,8 +382,12 @@ class Model:
 
 
 def menu(model, with_pairs=True, with_delpath=False, keys=KEYS,
-         with_extras=False, with_regen=False):
+         with_extras=False, with_regen=False, with_delsub=False):
     ops = []
+    if with_delsub:
+        for c in CONTAINERS:
+            for k in sorted(model.t[c]):
+                ops.append(('delsub', c, k))
     if with_regen:
         for c in CONTAINERS:
             for k in sorted(model.t[c]):
@@ -386,6 +415,9 @@ def menu(model, with_pairs=True, with_delpath=False, keys=KEYS,
             p = ('pair', a, b)
             if model.enabled(p):
                 ops.append(p)
+        for a in singles:
+            if a[0] == 'mov':
+                ops.append(('pair', a, ('gen', a[1], a[2])))
     return ops
 
 
@@ -429,7 +461,8 @@ def bfs(init, kind, depth, step, with_pairs=True, with_delpath=False,
 def enumerate_histories(init, kind, depth, with_pairs=True,
                         with_delpath=False, dedup=True, proc_issuer=False,
                         gen_kind=None, with_extras=False,
-                        pair_levels=None, with_regen=False):
+                        pair_levels=None, with_regen=False,
+                        with_delsub=False):
     """All (history, model trace) pairs explorer B visits, as plain data so
     that they can be distributed over worker processes."""
     root = Model(init, kind, proc_issuer, gen_kind)
@@ -443,7 +476,8 @@ def enumerate_histories(init, kind, depth, with_pairs=True,
             pairs_here = with_pairs and (pair_levels is None
                                          or level < pair_levels)
             for op in menu(model, pairs_here, with_delpath,
-                           with_extras=with_extras, with_regen=with_regen):
+                           with_extras=with_extras, with_regen=with_regen,
+                           with_delsub=with_delsub):
                 after = model.copy()
                 after.apply(op)
                 h2 = hist + (op,)
